@@ -1,7 +1,8 @@
 """C17  A session's writes are atomic under crashes and database errors."""
 import ast
 from ..loader import dotted, walk_no_nested, norm, head, calls_in, const
-from ..q import nodes_calling, is_call_to
+from ..q import nodes_calling, is_call_to, assign_pairs
+from ..typestate import Machine
 
 EXPLANATION = """
 Static clauses decided (necessary conditions of C17): every data-modifying statement is issued inside the session's
@@ -160,14 +161,25 @@ def run(ctx):
     g = cg.cfg(sq); cache = sq.params[2]
     begin = [x for x in g.nodes if x.kind == 'stmt' and isinstance(x.ast, ast.Assign) and isinstance(x.ast.value, ast.Constant)
              and isinstance(x.ast.value.value, str) and x.ast.value.value.upper().startswith('BEGIN IMMEDIATE')]
-    it = [t for t in g.nodes if t.kind == 'test' and norm(t.ast) == cache + '.immediate']
-    ok = bool(begin) and bool(it)
-    if ok:
-        # from the T edge of the last `if cache.immediate`, execute + in_transaction = True are unavoidable on normal paths
-        t = max(it, key=lambda x: x.lineno)
-        ts = [y for y, lab in g.succ[t.id] if lab == 'T']
-        exe = [x for x in nodes_calling(g, lambda c: isinstance(c.func, ast.Attribute) and c.func.attr == 'execute') if x.lineno > t.lineno]
-        ok = all(b.id in g.reach(ts) for b in begin) and g.exit.id not in g.reach(ts, avoid=exe)
+    # finite-state run: with cache.immediate true, every normal exit has executed the BEGIN IMMEDIATE statement (`sql` tracked as a constant)
+    def is_begin(v): return isinstance(v, ast.Constant) and isinstance(v.value, str) and v.value.upper().startswith('BEGIN IMMEDIATE')
+    def eff_b(n, env):
+        if n.kind != 'stmt': return None
+        upd = {}
+        if isinstance(n.ast, ast.Assign):
+            for t_, v_ in assign_pairs(n.ast):
+                if isinstance(t_, ast.Name) and (is_begin(v_) or env['sqlvar'] == t_.id): upd['sqlvar'] = t_.id if is_begin(v_) else ''
+        for c in n.calls():
+            if isinstance(c.func, ast.Attribute) and c.func.attr == 'execute' and c.args and (is_begin(c.args[0]) or (isinstance(c.args[0], ast.Name) and c.args[0].id == env['sqlvar'] != '')):
+                upd['begun'] = True
+        return {'normal': [upd]} if upd else None
+    def atom_b(t, env):
+        if t == cache + '.immediate': return env['imm']
+        return None
+    mb = Machine(g, ['imm', 'sqlvar', 'begun'], eff_b, atom_b, snap={cache + '.immediate': 'imm'})
+    INb = mb.run([{'imm': True, 'sqlvar': '', 'begun': False}])
+    ends = mb.states_at(INb, g.exit)
+    ok = bool(begin) and bool(ends) and all(e['begun'] for e in ends)
     ctx.ob('C17-BEGIN.sqlite-begin-immediate', sq, begin[0].ast if begin else sq.node, ok, '' if ok else 'immediate SQLite session does not execute BEGIN IMMEDIATE')
     # the flag that says "a transaction is open" is recorded only after BEGIN succeeded: otherwise a failed BEGIN (database is locked) leaves
     # in_transaction True on a connection in autocommit mode, BEGIN is never retried and every later write is durable at once
